@@ -15,7 +15,7 @@ func driveExplore(seed int64, tier, out, replay string) {
 	var ops []gen.GenOp
 	b, _ := os.ReadFile(os.Getenv("EXPLORE_OPS"))
 	json.Unmarshal(b, &ops)
-	for _, cfg := range []RigConfig{{}} {
+	for _, cfg := range []RigConfig{{HideNode: os.Getenv("EXPLORE_HIDE") != ""}} {
 		w := handWorld()
 		if ws := os.Getenv("EXPLORE_WORLD"); ws != "" {
 			var seedv int64
